@@ -28,6 +28,7 @@ class Prop:
             'is compared with the Lean model and with the property (the latest valid wrapper since the previous '
             'delivery, else none; fields = those of the wrapper line); non-trivial = a wrapper was attached')
     assumptions = []
+    last_valid = None
 
     def wrapper(self, rng, valid=True, second=None):
         """`second`: (y, mo, d, h, mi, s) shared by several wrappers of one sequence - real feeds repeat the same
@@ -40,7 +41,14 @@ class Prop:
                 f = (rng.choice([2020, 2024, 2000, 1600]), 2, 29) + f[3:]
             if second is not None and rng.random() < 0.6:
                 f = second + f[6:]
-            return gen.gatehouse(*f[:7], country=f[7], region=f[8], pss=f[9], online=b'%d' % f[10]), f
+            cc = b'6D'
+            if self.last_valid is not None and rng.random() < 0.25:
+                # a twin of the previous wrapper: the same time stamp and station fields, but another line (the
+                # check field of the wrapped sentence differs) - "the latest one is used"
+                f = self.last_valid
+                cc = rng.choice([b'00', b'7F', b'6d', b'1', b''])
+            self.last_valid = f
+            return gen.gatehouse(*f[:7], country=f[7], region=f[8], pss=f[9], online=b'%d' % f[10], cc=cc), f
         if second is not None and rng.random() < 0.4:
             # invalid milliseconds in a second that valid wrappers of the same sequence use as well
             y, mo, d, h, mi, sec = second
@@ -60,6 +68,7 @@ class Prop:
         cases = []
         for _ in range(1500 if ctx.tier == 'quick' else 80000):
             parts, seq_no = [], 0
+            self.last_valid = None
             second = (rng.randint(1, 9999), rng.randint(1, 12), rng.randint(1, 28), rng.randint(0, 23),
                       rng.randint(0, 59), rng.randint(0, 59)) if rng.random() < 0.5 else None
             for _ in range(rng.randint(2, 8)):
